@@ -88,6 +88,7 @@ type ProviderSpec struct {
 	DeclOrder         int
 	IsReturnError     bool
 	IsAsync           bool
+	IsVariadic        bool // the provider function's last parameter is variadic (...T)
 }
 
 type Return struct {
